@@ -1198,3 +1198,38 @@ def c10_k8(ctx):
             yield bad("C10-K8", key, at(f, t["span"]["line"]), "file data can be handed to the transport outside the data / EOF phases (state %s): a cancelled sender keeps answering NAKs and the receiver can still complete and publish the file" % (world_str(bw[0]) if bw else "unreachable"))
     if n == 0:
         raise Anchor("C10-K8", "calls of the file-data emitters in send_pdu")
+
+
+# ================================================================ C07-S9
+@rule("C07", "C07-S9", 2, "while metadata or file data is still to go out the sender always has something to send: has_pdu_to_send cannot be false in the SendMetadata / SendData phases of an active transaction (the EOF is prepared by the data step itself, so a false answer there stalls the transfer for ever)", also=("C18",))
+def c07_s9(ctx):
+    from rules_wiring import _NoCallKills
+
+    f = ctx.one("C07-S9", "SendTransaction::has_pdu_to_send")
+
+    def track(key):
+        return key[0] == "val" and key[1] in ("self.send_state", "self.state")
+
+    eb = ExprBuilder(ctx.prog, f)
+    for ph in ("SendMetadata", "SendData"):
+        entry = frozenset([frozenset([(("val", "self.send_state"), (True, frozenset([ph]))), (("val", "self.state"), (True, frozenset(["Active"])))])])
+        fl = Flow(ctx.prog, _NoCallKills(ctx.mods), f, track, entry=entry)
+        vals = []
+        for d in f.defs(0):
+            if d[0] == "assign":
+                ws = fl.at_stmt(d[1], d[2])
+                if not ws:
+                    continue  # not reachable in this phase
+                e = simp(eb.rvalue(d[3]))
+                vals.append((expr_str(e)[:80], d[1]))
+            elif d[0] == "call":
+                if fl.at_term(d[1]):
+                    vals.append((sstr(eb.call(d[1], d[2]))[:80], d[1]))
+        key = "SendTransaction::has_pdu_to_send:%s" % ph
+        # `a || b` assigns true on the short-circuit edge and the value of b on the other: every value that can be
+        # returned in this phase must be the constant true
+        bad_vals = [v for v, b in vals if v not in ("const(1)", "const(True)")]
+        if vals and not bad_vals:
+            yield ok("C07-S9", key, at(f), "always true in the %s phase of an active transaction" % ph)
+        else:
+            yield bad("C07-S9", key, at(f), "has_pdu_to_send can answer %s in the %s phase: the step that sends the next data (and finally prepares the EOF) is never scheduled and no timer runs in that phase - the transaction hangs" % (bad_vals or "nothing", ph))
